@@ -120,6 +120,17 @@ package cache
 //@   ensures a_hit_protects_the_entry_from_cleaning [C14]: result0 ==> in(cacheDir, cache.added)
 //@   ensures never_stored_is_a_miss [C12]: !old(core.PathExists(cacheDir)) ==> !result0 && result1 == nil
 //@   callsite fs.RecursiveLink from_the_entry [C12]: arg_from == filepath.Join(cacheDir, out)
+//@   callsite fs.RecursiveLink track nlinked int: nlinked + 1
+//@   invariant "range outs" every_output_is_restored_or_the_retrieve_fails [C12]: nlinked == atloop(nlinked) + idx
+//
+// storeCompressed2: EVERY entry the walk visits — directories (also empty ones) and symlinks included — gets its
+// own tar header, built from the entry itself relative to the output directory; nothing is skipped.
+//@ func (dirCache).storeCompressed2.lit#1
+//@   opt nopanic=off
+//@   opt panics=allowed
+//@   callsite (dirCache).tarHeader of_the_entry_itself [C12]: arg_file == name && arg_prefix == outDir
+//@   callsite (dirCache).tarHeader trackresult hdrerr error: result1
+//@   ensures every_entry_gets_a_header [C12]: result == nil ==> called("(dirCache).tarHeader") && called("(Writer).WriteHeader")
 
 // ---------------------------------------------------------------------------------------------
 // Remote and command caches store complete artifacts or nothing (C13)
